@@ -117,6 +117,9 @@ Definition comp_scenario (rels : list (list msg)) (meta ti bi : nat) (k : Z) : s
       end
   end.
 
+(* Composition.from_midi_file(path, track_indices, meta_track_indices, meta_track_index): load, quantise_and_normalise()
+   every sequence (defaults), from_sequences.  (Placed after the MIDI section below: see comp_from_file.) *)
+
 (* ---- tokeniser options that are arguments rather than part of cfg *)
 (* the constructor with an explicit ppqn (default step sizes and note values still come from the global PPQN) *)
 Definition make_cfg_ppqn (ppqn ntracks plo phi : Z) (steps values : option (list Z)) (nbins : Z)
@@ -169,6 +172,19 @@ Fixpoint run_trace_h (st : store) (hs : list hop) : list string :=
   | h :: hs' => let '(st1, x) := hstep st h in (show_out x ++ "@" ++ show_store st1) :: run_trace_h st1 hs'
   end.
 Definition show_trace_h (hs : list hop) : string := sjoin "$" (run_trace_h [] hs).
+
+(* ---- Composition.from_file: load, quantise_and_normalise() with the defaults on every sequence, from_sequences *)
+Definition comp_from_file (tpb : Z) (tracks : list (list mev)) (groups : list (list Z)) (metas : list Z) (mi : Z)
+  : result comp :=
+  do seqs <- convert_exec tpb tracks groups metas mi;
+  do seqs' <- mapM (fun s => seq_quantise_and_normalise s (get_default_step_sizes 0 0) get_default_note_values PPQN false) seqs;
+  do rels <- mapM (fun s => do '(_, r) <- get_rel s; Ok r) seqs';
+  comp_from_sequences rels (Z.to_nat mi).
+Definition show_comp_file (tpb : Z) (tracks : list (list mev)) (groups : list (list Z)) (metas : list Z) (mi : Z) : string :=
+  match comp_from_file tpb tracks groups metas mi with
+  | Err e => "!" ++ show_err e
+  | Ok c => show_comp c ++ "#" ++ show_res (fun l => sjoin "|" (map show_seq l)) (comp_to_sequences c)
+  end.
 
 (* outputs of every step, then object t and every object from index `from` on (the rest of the store is not shown:
    plain concatenate shares Message objects with its operands, known finding D9') *)
